@@ -338,6 +338,9 @@ class DB:
         self.backup_fs(flush_data.state.height, flush_data.state.tx_count)
         self.history.backup(touched, flush_data.state.tx_count)
         self.flush_utxo_db(flush_data)
+        # Truncate header_mc only now that self.state no longer offers the headers backed
+        # out to its readers: header count is 1 more than the height.
+        self.header_mc.truncate(flush_data.state.height + 1)
 
         self.log_flush_stats('backup flush', flush_data, time.time() - start_time)
 
@@ -347,8 +350,6 @@ class DB:
         '''Back up during a reorg.  This just updates our pointers.'''
         self.fs_height = height
         self.fs_tx_count = tx_count
-        # Truncate header_mc: header count is 1 more than the height.
-        self.header_mc.truncate(height + 1)
 
     async def raw_header(self, height):
         '''Return the binary header at the given height.'''
